@@ -136,3 +136,124 @@ def run_c02_known(ctx):
             st.record(label, sx.dumps(tag("json", spec.fm_sx(m))), "done", "done")
     finally:
         sc.close()
+
+
+def run_c11_known(ctx):
+    """the Clafer writer's naming / literal layer: names and string values that its quoting convention cannot protect"""
+    import suite_export as se
+    from flamapy.metamodels.fm_metamodel.transformations import ClaferWriter
+    st = ctx.suite("W-clafer-known")
+    F, R, A = spec.F, spec.R, spec.A
+    key = "clafer-writer-names-and-literals-not-made-safe"
+
+    def two(a, b="B", attrs=()):
+        return dict(root=F("Root", [R(0, 1, [F(a, attrs=list(attrs))]), R(0, 1, [F(b)])]), ctcs=[("c", OP("IMPLIES", T(a), T(b)))])
+    cases = [
+        (None, "control:quoted name", two("two words")),
+        (None, "control:string value", two("A", attrs=[A("s", default="plain text")])),
+        (key, "double quote inside a name", two('a"b')),
+        (key, "line break inside a name", two("a\nb")),
+        (key, "name made of digits", two("123")),
+        (key, "feature called like the instance CP", two("CP")),
+        (key, "double quote inside a string value", two("A", attrs=[A("s", default='he said "hi"')])),
+        (key, "line break inside a string value", two("A", attrs=[A("s", default='v"]\n[A || "A')])),
+    ]
+    for k, label, m in cases:
+        clause = f"known:{k}:{label}" if k else label
+        req = sx.dumps(tag("clafer_text", spec.fm_sx(m)))
+        try:
+            text = _quiet(lambda: ClaferWriter(None, spec.build_fm(m)).transform())
+        except Exception as e:  # noqa: BLE001
+            st.oracle_fail(label, req, clause, "writer raises " + spec.exn_name(e))
+            continue
+        names, _tree_ok, full_ok = se.brute_force(m)
+        try:
+            got, exported, decls, uses = se.clafer_configs(text, names)
+            ok = se.same_sets(got, full_ok) and set(names) <= exported
+            detail = f"export admits {len(got)} configurations, model has {len(full_ok)}; names exported {sorted(exported)[:6]}"
+        except Exception as e:  # noqa: BLE001
+            ok, detail = False, f"export not in the target syntax: {type(e).__name__}: {e}"[:200]
+        if not ok:
+            st.oracle_fail(label, req, clause, detail)
+        st.record(label, req, "done", "done")
+
+
+def run_c09_known(ctx):
+    """AFM documents that differ from a readable one only by harmless blanks"""
+    from flamapy.metamodels.fm_metamodel.transformations import AFMReader
+    st = ctx.suite("R-afm-known")
+    sc = fmt.Scratch()
+    key = "afm-grammar-rejects-harmless-blanks"
+    plain = "%Relationships\nA : [B] [1,2]{C D};\n\n%Attributes\nB.cost: Integer [1 to 2],1,2;\n\n%Constraints\nB REQUIRES C;\n"
+    docs = [(None, "control", plain),
+            (key, "blank before the semicolon of a line ending with a group", plain.replace("{C D};", "{C D} ;")),
+            (key, "blank after the comma of a cardinality", plain.replace("[1,2]{", "[1, 2]{")),
+            (key, "blanks inside the brackets of an optional child", plain.replace("[B]", "[ B ]")),
+            (key, "blanks after the commas of an attribute line", plain.replace("],1,2;", "], 1, 2;"))]
+    try:
+        expected = None
+        for k, label, text in docs:
+            clause = f"known:{k}:{label}" if k else label
+            path = sc.path("afm")
+            with open(path, "w", encoding="utf-8") as fh:
+                fh.write(text)
+            try:
+                back = spec.dump_fm(_quiet(lambda: AFMReader(path).transform()))
+            except Exception as e:  # noqa: BLE001
+                st.oracle_fail(label, sx.dumps(text), clause, "valid document rejected: " + spec.exn_name(e))
+                st.record(label, sx.dumps(text), "done", "done")
+                continue
+            if expected is None:
+                expected = back
+            elif sx.dumps(spec.fm_sx(back)) != sx.dumps(spec.fm_sx(expected)):
+                st.oracle_fail(label, sx.dumps(text), clause, "a different model than without the blanks")
+            st.record(label, sx.dumps(text), "done", "done")
+    finally:
+        sc.close()
+
+
+def run_c10_known(ctx):
+    """names the SPLOT / propositional writers do not make safe for their formats"""
+    import xml.etree.ElementTree as ET
+    import suite_export as se
+    from flamapy.metamodels.fm_metamodel.transformations import SPLOTWriter
+    from flamapy.metamodels.fm_metamodel.transformations.pl_writer import PLWriter
+    st = ctx.suite("W-export-known")
+    F, R = spec.F, spec.R
+    key = "splot-pl-writers-names-not-made-safe"
+
+    def free(names, ctcs):
+        return dict(root=F("R", [R(0, 1, [F(n)]) for n in names]), ctcs=[(f"c{i}", c) for i, c in enumerate(ctcs)])
+    cases = [
+        (None, "splot", "control:quoted name", free(["my feat", "B"], [OP("IMPLIES", T("my feat"), T("B"))])),
+        (key, "splot", "ampersand in a name (XML)", free(["a&b", "B"], [OP("IMPLIES", T("a&b"), T("B"))])),
+        (key, "splot", "name starting with a minus sign", free(["A", "-A", "B"], [OP("IMPLIES", T("B"), T("-A"))])),
+        (key, "splot", "double quote inside a name", free(["x y", "z w", 'x y" or "z w'], [T('x y" or "z w')])),
+        (None, "pl", "control:plain names", free(["A", "B"], [OP("OR", T("A"), T("B"))])),
+        (key, "pl", "name containing an operator word", free(["A", "B", "A or B"], [T("A or B")])),
+        (key, "pl", "name containing a blank", free(["my feat", "B"], [OP("IMPLIES", T("my feat"), T("B"))])),
+    ]
+    for k, fmt_, label, m in cases:
+        clause = f"known:{k}:{fmt_}: {label}" if k else f"{fmt_}: {label}"
+        req = sx.dumps(tag("export", fmt_, spec.fm_sx(m)))
+        W = SPLOTWriter if fmt_ == "splot" else PLWriter
+        try:
+            text = _quiet(lambda: W(None, spec.build_fm(m)).transform())
+        except Exception as e:  # noqa: BLE001
+            st.oracle_fail(label, req, clause, "writer raises " + spec.exn_name(e))
+            continue
+        names, _tree_ok, full_ok = se.brute_force(m)
+        ok, detail = True, ""
+        try:
+            if fmt_ == "splot":
+                ET.fromstring(text.encode("utf-8"))          # SXFM is an XML document
+                got, exported = se.sxfm_configs(text, names)
+            else:
+                got, exported = se.exp_configs(text, names)
+            if not se.same_sets(got, full_ok) or not set(names) <= exported:
+                ok, detail = False, f"export admits {len(got)} configurations, model has {len(full_ok)}; exported names {sorted(exported)[:6]}"
+        except Exception as e:  # noqa: BLE001
+            ok, detail = False, f"export not in the target syntax: {type(e).__name__}: {e}"[:200]
+        if not ok:
+            st.oracle_fail(label, req, clause, detail)
+        st.record(label, req, "done", "done")
